@@ -137,7 +137,9 @@ def run(ctx):
     # liveness: the formatter does consult hash maps (so the rule is not vacuous) through keyed lookups
     disp = F.fns[anchors[0]]
     lookups = sum(1 for _, t in disp.calls() if t["callee"].get("name") == "get" and I.callee_path(t).startswith("std::collections::HashMap"))
-    ctx.floor("keyed map lookups in Display for HandRange", lookups, 8)
+    # (one per row pass is what any formatter of this design needs; the reference tree has 9, a formatter that carries the open
+    # run's weight in its state has 4)
+    ctx.floor("keyed map lookups in Display for HandRange", lookups, 3)
     ctx.ok(rule, {"display_keyed_lookups": lookups, "hash_ordered_loops_under_display": n_hash_loops}, sample=True)
 
     # tokens are pushed only inside loops over the fixed tables (or straight-line code)
